@@ -3,7 +3,7 @@
     translated skeletons. *)
 From Coq Require Import List Bool Arith.
 Import ListNotations.
-From TI Require Import lib.Eff model.SkelTie gen.Skeletons.
+From TI Require Import lib.Eff model.SkelTie model.C13Any gen.Skeletons.
 
 Definition sk_of (n : nat) : prog :=
   match n with
@@ -16,7 +16,14 @@ Record tcase := mkcase { c_fn : nat; c_obs : list nat; c_run : run }.
 
 Definition attrs_clean (s : st) : bool := negb (tmod s).
 
-Definition check (c : tcase) : nat := judge (obs_of (c_obs c)) attrs_clean (sk_of (c_fn c)) (c_run c).
+(** Round 4: the observed run is judged against [anyfault sk] ([model/C13Any.v]): a fault inside
+    the function's own clean-up blocks is IN SCOPE (the property says "at any point"); the only
+    position the judgement places outside the property (code 10) is the [tcsetattr] of a
+    clean-up block itself failing. *)
+Definition check (c : tcase) : nat :=
+  judge (obs_of (c_obs c)) attrs_clean (anyfault (sk_of (c_fn c))) (c_run c).
+(** the round-2 judgement (clean-up blocks outside the property), kept for comparison *)
+Definition check_round2 (c : tcase) : nat := judge (obs_of (c_obs c)) attrs_clean (sk_of (c_fn c)) (c_run c).
 
 (** (index, code) of the cases whose code is not 0 *)
 Definition bad (cases : list tcase) : list (nat * nat) :=
